@@ -5,9 +5,13 @@
 (* E57Format as judge of the bytes the real writer produced.               *)
 (* Tags: P:Cxx:... property-tier predicate of property Cxx; S:... strict.  *)
 (***************************************************************************)
-EXTENDS E57Meta, TraceBase
+EXTENDS E57Meta, TraceBase, QueueLayer
 
-TInit == EInit /\ l = 1 /\ TLCSet(1, <<0, "none">>)
+\* the queue reader driven directly (q_* events): its model state, the packets and streams of the section it reads
+VARIABLE qs
+NoQueue == [live |-> FALSE]
+
+TInit == EInit /\ l = 1 /\ qs = NoQueue /\ TLCSet(1, <<0, "none">>)
 
 E == Rec[l]
 \* a call that panicked: the content handed to the writer was not stored, whatever property the
@@ -300,11 +304,58 @@ T_RXml == /\ IsEv("r_xml") /\ RNoPanic
           /\ ChkP(IsOk(E.res) /\ E.res.ok = XmlBytes(file.img, file.L), {"C04"}, "xml-returned-differs-from-file")
           /\ res' = E.res /\ FileUnch
 
-TNext == \/ T_Reset \/ T_Panic \/ T_Scene \/ T_RHints \/ T_RSimpleCount \/ T_WNew \/ T_WCoord \/ T_WCreation \/ T_WExt \/ T_WBlob
+\* ------------------------------------------------------------------ the queue reader, step by step (C03, C01, C12)
+\* The harness drives QueueReader::new / advance / pop_point on one compressed-vector section under several schedules
+\* (refill only when empty like the iterators, all packets first, random mixtures) and records the number of complete
+\* points available after every step.  The packets and their stream sizes are taken from the file by the independent
+\* decoder; QueueLayer says what the queues must hold after each packet; values are the next ones of their streams.
+RECURSIVE PacketList(_, _, _, _)
+PacketList(L, pos, secEnd, nrec) ==
+    IF pos + 4 > secEnd THEN <<>>
+    ELSE LET plen == U16(L, pos + 2) + 1
+         IN <<IF L[pos + 1] = 1 THEN [t |-> "data", sizes |-> U16Seq(L, pos + 6, nrec)]
+              ELSE IF L[pos + 1] = 0 THEN [t |-> "index"] ELSE [t |-> "ignored"]>>
+            \o PacketList(L, pos + plen, secEnd, nrec)
+QWidths(xp) == QTup(LAMBDA i : Width(xp[i]), 1, Len(xp))
+QUnch == UNCHANGED <<sc, file, res>>
+T_QNew ==
+    /\ IsEv("q_new") /\ RNoPanic
+    /\ \E pcn \in {Data3D(file.xml)[E.pc]} : \E xp \in {XProto(pcn)} : \E off \in {XOffset(pcn)} :
+       \E cv \in {CvAt(file.img, file.L, off, Len(xp))} :
+         /\ Chk(cv.ok, "S:queue-reader-on-a-malformed-section")
+         /\ \E w \in {QWidths(xp)} :
+              /\ ChkP(IsOk(E.res) <=> QNewOk(w), {"C03", "C09"}, "queue-reader-construction")
+              /\ LET lp == Phys2Log(off)
+                 IN qs' = [live |-> IsOk(E.res), q |-> QNew(w), proto |-> xp, streams |-> cv.streams,
+                           pkts |-> PacketList(file.L, Phys2Log(U64Small(file.L, lp + 16)), lp + U64Small(file.L, lp + 8), Len(xp))]
+    /\ QUnch
+T_QAdvance ==
+    /\ IsEv("q_advance") /\ RNoPanic
+    /\ Chk(qs.live /\ qs.q.seen < Len(qs.pkts), "S:advance-without-a-packet")
+    /\ ChkP(IsOk(E.res), {"C03", "C01"}, "advance-failed-on-a-well-formed-packet")
+    /\ \E nq \in {QAdvance(qs.q, qs.pkts[qs.q.seen + 1], QInf)} :
+         /\ ChkP(IsOk(E.res) => E.avail = QAvail(nq), {"C03", "C01"}, "points-available-after-advance")
+         /\ Chk(QWellFormed(nq), "S:queue-model-ill-formed")
+         /\ qs' = [qs EXCEPT !.q = nq]
+    /\ QUnch
+T_QPop ==
+    /\ IsEv("q_pop") /\ RNoPanic
+    /\ Chk(qs.live /\ QAvail(qs.q) >= 1, "S:pop-without-a-point")
+    /\ ChkP(IsOk(E.res), {"C03", "C01"}, "pop-failed-although-a-point-is-available")
+    /\ IsOk(E.res) => \A i \in 1..Len(qs.proto) :
+          ChkP(ValKind(E.res.ok[i]) = qs.proto[i].k /\ ValLimbs(E.res.ok[i]) = StoredValue(qs.proto[i], qs.streams[i], qs.q.popped),
+               {"C03", "C12", "C01"}, "popped-value-is-not-the-next-value-of-its-stream")
+    /\ \E nq \in {QPop(qs.q)} :
+         /\ ChkP(E.avail = QAvail(nq), {"C03", "C01"}, "points-available-after-pop")
+         /\ qs' = [qs EXCEPT !.q = nq]
+    /\ QUnch
+
+ENext == \/ T_Reset \/ T_Panic \/ T_Scene \/ T_RHints \/ T_RSimpleCount \/ T_WNew \/ T_WCoord \/ T_WCreation \/ T_WExt \/ T_WBlob
          \/ T_PcNew \/ T_PcSet \/ T_PcPoints \/ T_PcPoint \/ T_PcFinalize \/ T_PcDrop
          \/ T_ImNew \/ T_ImSet \/ T_ImAdd \/ T_ImFinalize \/ T_ImDrop
          \/ T_WFinalize \/ T_Final
          \/ T_ROpen \/ T_RReport \/ T_RRaw \/ T_RBlob \/ T_RXml
+TNext == (ENext /\ UNCHANGED qs) \/ T_QNew \/ T_QAdvance \/ T_QPop
 
-TSpec == TInit /\ [][TNext]_<<evars, l>>
+TSpec == TInit /\ [][TNext]_<<evars, l, qs>>
 =============================================================================
